@@ -211,6 +211,17 @@ func (sh *shadow) after(r *hx.Run, w *world, op []string, pre, post *snapshot, c
 			sh.gen[k]++
 		}
 	}
+	// a request transaction only stores the request: if the record the request is about changes already now, the action
+	// was applied without any validator approval (C32), and a request that produced its effect must not stay pending (C33)
+	if okOp {
+		if kind, rk, changed, pending := requestEffect(pre, post, name, op); kind != "" && changed {
+			r.Viol("C32:applied-without-approval:"+kind, fmt.Sprintf("%s changed the record it only requests to change (no approval counted): %s", name, strings.Join(op, " ")))
+			if pending {
+				r.Viol("C33:request-took-effect-but-still-pending:"+kind, fmt.Sprintf("%s took effect immediately and its request is still stored as pending", name))
+			}
+			sh.fresh[rk] = false
+		}
+	}
 	// ------------------------------------------------------------------ approve ops: quorum (C32) and consumption (C33)
 	if spec, isApprove := approveOps[name]; isApprove && okOp {
 		reqKey, ledgerInput, claimed := requestKey(op)
@@ -225,6 +236,9 @@ func (sh *shadow) after(r *hx.Run, w *world, op []string, pre, post *snapshot, c
 		//           last took effect); an action applied with fewer is applied below quorum;
 		//   lower = validators that approved with exactly these tokens since the request was last written; an action
 		//           not applied with that many is not applied at quorum.
+		if spec.reqKind != "" && sh.gen[spec.reqKind+"|"+reqKey] == 0 {
+			r.Viol("C33:approval-accepted-for-unknown-request:"+spec.reqKind, fmt.Sprintf("%s with request id %s succeeded although no such request was ever stored", spec.method, reqKey))
+		}
 		ident := rk + "#" + requestIdent(pre, spec.reqKind, op)
 		exact := fmt.Sprintf("%s#%s#%d", rk, ledgerInput, sh.gen[rk])
 		add := func(m map[string]map[common.Address]bool, k string) map[common.Address]bool {
@@ -330,6 +344,42 @@ func requestIdent(pre *snapshot, kind string, op []string) string {
 		return pre.scupd[pad(op[2])]
 	}
 	return ""
+}
+
+// requestEffect: for a request transaction: its kind, request key, whether the record the request is about changed in
+// this very transaction, and whether the request is stored as pending afterwards.
+func requestEffect(pre, post *snapshot, name string, op []string) (kind, rk string, changed, pending bool) {
+	pad := func(s string) string { return fmt.Sprintf("%020d", idNum(s)) }
+	has := func(m map[string]string, k string) bool { _, ok := m[k]; return ok }
+	switch name {
+	case "reg":
+		return "cand", "cand|" + pkBytesKey(op[2]), fmt.Sprint(pre.curPool()) != fmt.Sprint(post.curPool()), has(post.apply, pkBytesKey(op[2]))
+	case "screg":
+		return "screg", "screg|" + op[3], pre.sc[pad(op[3])] != post.sc[pad(op[3])], has(post.scapply, pad(op[3]))
+	case "scupd":
+		return "scupd", "scupd|" + op[3], pre.sc[pad(op[3])] != post.sc[pad(op[3])], has(post.scupd, pad(op[3]))
+	case "scquit":
+		p := false
+		for _, x := range post.scquit {
+			if x == pad(op[2]) {
+				p = true
+			}
+		}
+		return "scquit", "scquit|" + op[2], pre.sc[pad(op[2])] != post.sc[pad(op[2])], p
+	case "rlreg":
+		id := fmt.Sprint(idNum(pre.rlaid))
+		return "rlreg", "rlreg|" + id, strings.Join(pre.rl, ",") != strings.Join(post.rl, ","), has(post.rlapply, pad(id))
+	case "rlrm":
+		id := fmt.Sprint(idNum(pre.rlrid))
+		return "rlrm", "rlrm|" + id, strings.Join(pre.rl, ",") != strings.Join(post.rl, ","), has(post.rlrm, pad(id))
+	case "svreg":
+		id := fmt.Sprint(idNum(pre.svaid))
+		return "svreg", "svreg|" + id, pre.sv != post.sv, has(post.svapply, pad(id))
+	case "svrm":
+		id := fmt.Sprint(idNum(pre.svrid))
+		return "svrm", "svrm|" + id, pre.sv != post.sv, has(post.svrm, pad(id))
+	}
+	return "", "", false, false
 }
 
 // targetChanged: the record an approval of this kind acts on differs before and after the transaction.
